@@ -26,7 +26,8 @@ try:
     res["with_change_existing_tests_pass"] = rc == 0
     if rc: res["existing_tests_output"] = out[-1500:]
     open(os.path.join(wt, target), "w").write(demo)
-    tags = "-tags docker " if re.search(r"-tags[ =]\"?docker", demo.split("\n", 1)[0]) else ""   # demonstrations under the production constants say so in their first line
+    mt = re.search(r"-tags[ =]\"?([a-z,]+( [a-z]+)?)\"?", demo.split("\n", 1)[0])   # demonstrations under other build tags (docker = production constants, verif = schedule points) say so in their first line
+    tags = ("-tags \"%s\" " % mt.group(1).strip()) if mt and re.match(r"^(docker|verif)([ ,](docker|verif))?$", mt.group(1).strip()) else ""
     res["demo_tags"] = tags.strip()
     run = "flock /tmp/repo-tests.lock go test %s-vet=off -count=1 -run 'Seed' ./%s/" % (tags, os.path.dirname(target))
     rc, out = sh(run)
